@@ -12,6 +12,9 @@ from pytezos.michelson.micheline import MichelsonRuntimeError
 from pytezos.michelson.types.base import MichelsonType
 
 
+VIEW_NAME_CHARS = frozenset('abcdefghijklmnopqrstuvwxyzABCDEFGHIJKLMNOPQRSTUVWXYZ0123456789_.%@')
+
+
 class ViewSection(Micheline, prim='view', args_len=4):
     """
     Syntax: view {name} {arg_type} {ret_type} {code}
@@ -70,8 +73,9 @@ class ViewSection(Micheline, prim='view', args_len=4):
             raise MichelsonRuntimeError('view', 'Expected view name as first argument', view_name)
         name = view_name.get_string()
         if len(name) >= 32:
-            # TODO: also check for denied symbols
             raise MichelsonRuntimeError('view', f'Too long view name {view_name}')
+        if any(c not in VIEW_NAME_CHARS for c in name):
+            raise MichelsonRuntimeError('view', f'Forbidden characters in view name {view_name}')
 
         # NOTE: Check for opcodes forbidden in views
         cls.check_code(args[3], lambda_=False)
